@@ -70,6 +70,8 @@ type c07World struct {
 	comSum   map[int][]byte
 	// some table has a block whose last row ends with an empty cell
 	blockEndsEmpty bool
+	// some table is another one committed again under a different primary key (same blocks, other block indices)
+	rekeyed bool
 }
 
 // c07BlankBlockEnd empties the last cell of a row that is the last of its block (rows are stored in
@@ -142,6 +144,31 @@ func buildC07(seed int64, thorough bool, negotiated bool) (*c07World, error) {
 				endsEmpty = c07BlankBlockEnd(t, xr) || endsEmpty
 			}
 			specs = append(specs, t)
+		}
+	}
+	// one scenario in two also holds a table committed again under another primary key that leaves
+	// the row order as it was (the key column followed by the next one, or no key at all: a keyless
+	// table is ordered by all its columns): the two tables consist of the very same blocks, but every
+	// block index differs (an index entry is hash(key values) ++ hash(row)). A stream of its own.
+	kr := rand.New(rand.NewSource(seed ^ 0x726b6579))
+	if kr.Intn(2) == 0 {
+		var cand []*TableSpec
+		for _, s := range specs {
+			if len(s.Rows) > 0 && len(s.PK) == 1 && s.PK[0] == s.Columns[0] {
+				cand = append(cand, s)
+			}
+		}
+		for k := 0; k < 1+kr.Intn(2) && len(cand) > 0; k++ {
+			v := cloneSpec(cand[kr.Intn(len(cand))])
+			if len(v.Columns) >= 2 && kr.Intn(2) == 0 {
+				v.PK = []string{v.Columns[0], v.Columns[1]}
+			} else {
+				v.PK = nil
+			}
+			// anywhere among the tables: which of the two versions is met first varies
+			at := kr.Intn(len(specs) + 1)
+			specs = append(specs[:at], append([]*TableSpec{v}, specs[at:]...)...)
+			w.rekeyed = true
 		}
 	}
 	var tsums [][]byte
@@ -767,11 +794,21 @@ func c07Run(w *c07World) Res {
 					same = false
 				}
 			}
+			// ... and so must every block index the table names: [held by the destination, same bytes as the source's]
+			bis := [][]int{}
+			if tb, err := objects.GetTable(dst, sum); err == nil {
+				for _, bi := range tb.BlockIndices {
+					key := append([]byte("blkidx/"), bi...)
+					a, e1 := w.src.Get(key)
+					b, e2 := dst.Get(key)
+					bis = append(bis, []int{b2i(e2 == nil), b2i(e1 == nil && e2 == nil && bytes.Equal(a, b))})
+				}
+			}
 			if len(d.Blocks) > 2 {
 				// keep the line small: rows of big tables are not shipped to the oracle
-				checks = append(checks, map[string]interface{}{"id": t, "issues": iss, "derivedSame": same})
+				checks = append(checks, map[string]interface{}{"id": t, "issues": iss, "derivedSame": same, "blockIndices": bis, "blocks": len(d.Blocks)})
 			} else {
-				checks = append(checks, map[string]interface{}{"id": t, "table": d, "hashes": hashRows(d), "issues": iss, "derivedSame": same})
+				checks = append(checks, map[string]interface{}{"id": t, "table": d, "hashes": hashRows(d), "issues": iss, "derivedSame": same, "blockIndices": bis, "blocks": len(d.Blocks)})
 			}
 		}
 		val := map[string]interface{}{"packs": packs, "keys": keys, "identical": identical, "done": recvDone, "tableChecks": checks}
@@ -811,6 +848,9 @@ func runC07(ctx *Ctx) {
 	tags = append(tags, c07Tags(w.in)...)
 	if w.blockEndsEmpty {
 		tags = append(tags, "block-ends-with-empty-cell")
+	}
+	if w.rekeyed {
+		tags = append(tags, "same-blocks-under-another-primary-key")
 	}
 	ctx.Emit("xfer", w.in, res, nt, tags...)
 }
@@ -881,4 +921,11 @@ func c07Tags(in *c07Input) []string {
 		}
 	}
 	return tags
+}
+
+func b2i(b bool) int {
+	if b {
+		return 1
+	}
+	return 0
 }
